@@ -17,7 +17,7 @@ def run(tier, seed, replay=None):
     shutil.rmtree(p.workdir, ignore_errors=True)
     rep = vlib.run_harness(binary, ["c12", "-cases", os.path.join(r.workdir, "c12_cases.ndjson"), "-maxlen", "32" if tier == "quick" else "64",
                                     "-sweep-every", "3" if tier == "quick" else "1", "-http-every", "4" if tier == "quick" else "1"], timeout=7000)
-    if rep.get("extra", {}).get("read_error") or rep["inconclusive"]:
+    if rep.get("extra", {}).get("read_error") or (rep["inconclusive"] and not rep["divergences"]):
         raise vlib.Infra("c12 harness: %s" % rep.get("extra"))
     ck.add_report(rep)
     ck.cov["rule"] = ("one case per TLC state: index (multihash -> up to 2 provider/context/metadata records, identity- and sha256-hashed peer IDs, empty and "
